@@ -119,7 +119,7 @@ def summarize_event(ev):
     return json.dumps(keep)[:300]
 
 
-def engine_check(pid, fams, tier_, maxruns, level_note="", props=None, extra_cov=None):
+def engine_check(pid, fams, tier_, maxruns, level_note="", props=None, extra_cov=None, level="model_checking"):
     """Runs the pipeline and reports for property pid.  Returns exit code."""
     t0 = time.time()
     sd = seed()
@@ -184,7 +184,7 @@ def engine_check(pid, fams, tier_, maxruns, level_note="", props=None, extra_cov
         }
         if extra_cov:
             cov.update(extra_cov)
-        write_evidence(pid, tier_, "model_checking", cov, time.time() - t0, n_v,
+        write_evidence(pid, tier_, level, cov, time.time() - t0, n_v,
                        ["TLC", "NinjaRef.tla reference semantics", "harness model disk/runner honour the DiskInterface/CommandRunner contracts",
                         "commands are deterministic functions of what they read; mtimes never go backwards"] + ([level_note] if level_note else []))
         return report(pid, found, known_hits)
